@@ -229,6 +229,8 @@ example : dumpAll [.int 7, .text [233], .null] ++ [49, 50, 58, 97]
     = [[49], [58, 55, 35, 50, 58, 195], [169], [36, 48, 58], [126, 49, 50, 58, 97]].flatten := by
   decide +kernel
 
+example : ∀ v ∈ [TVal.int 7, .text [233], .null], wf v = true ∧ streamOk v = true := by decide
+
 /-- a tail beginning with a digit is not swallowed by the greedy SIZE of the previous message -/
 example : (feed {} (dump (.bytes [120]) ++ [53])).out = [(.bytes [120], 4)] := by decide +kernel
 
